@@ -88,6 +88,10 @@ def run(tier, seed):
     greps, gm, gviol = vc.rsched_scenarios(PID, "h_gvt", hg, gsc, d, workers=2)
     reps += greps
     viol += gviol
+    # (e) shared static state of the GVT / termination code used without atomics (per-thread slots, timers): interleavings inside calls
+    rreps, rm, rviol = hc.race_part(PID, d, tier, [("m0", T(2, [1, 2], [2, 1, 7], P=5, K=5, H=6), 2, 2), ("m1", T(3, [7, 0, 1], [7, 2, 1], P=5, K=5, H=6), 3, 1)])
+    reps += rreps
+    viol += rviol
     m = vc.merge_rsched(reps)
     # (d) the half of the safety argument that lives in lp/process.c: every process_msg() call reports to the GVT module a timestamp <=
     # everything it puts in flight (anti-message cascades included), for every delivery order
@@ -109,6 +113,7 @@ def run(tier, seed):
                                          "closed": r["exhaustive"], "level_completed": r["level_completed"]} for r in greps]
     cov["states"] += sum(r["distinct_states"] for r in greps)
     hc.add_proc(cov, pm, preps)
+    cov["rule"] += ". " + hc.RACE_RULE
     cov["rule"] += ("; for C04 the h_proc oracle that matters is the accounting contract: by the time a process_msg() call returns, the smallest "
                     "timestamp it passed to gvt_on_msg_extraction() is <= the timestamp of every message it put in flight for another worker "
                     "(the receiver may already have sampled its queue, so only the sender's accumulator can cover it) - checked on every call "
@@ -126,6 +131,8 @@ def replay(path):
     import os
     d = vc.fresh_dir(PID + "_replay")
     name = os.path.basename(path)
+    if hc.is_race_replay(path):
+        return vc.rsched_replay(hc.build(d, race=True), path)
     if name.startswith("gvt_state"):
         return vc.rsched_replay(build_hgvt(d), path)
     if hc.is_proc_replay(path):
